@@ -255,3 +255,73 @@ func H_C03_pairing() {
 	}
 	vReach("paired")
 }
+
+func init() { vReg("H_C03_sequence", H_C03_sequence) }
+
+// Every request of a connection is routed on its own: two searches in a row on one
+// connection, against two search routes (optional base / scope criteria) and an
+// optional default route; each goes to the first route matching *it*, whatever the
+// previous request was served by.
+func H_C03_sequence() {
+	m := vMux()
+	var calls []int
+	h := func(i int) HandlerFunc {
+		return func(w *ResponseWriter, r *Request) { calls = append(calls, i) }
+	}
+	var table []rtSpec
+	for i := 0; i < 2; i++ {
+		n := fmt.Sprintf("rt%d", i)
+		rt := rtSpec{kind: rkSearch}
+		var opts []Option
+		if vBool(n + ".hasBase") {
+			rt.base = vAscii2(n + ".base")
+			opts = append(opts, WithBaseDN(rt.base))
+		}
+		if vBool(n + ".hasScope") {
+			rt.scope = vI64(n + ".scope")
+			opts = append(opts, WithScope(Scope(rt.scope)))
+		}
+		vAssert(m.Search(h(i), opts...) == nil, "route registered")
+		table = append(table, rt)
+	}
+	hasDefault := vBool("defaultRoute")
+	if hasDefault {
+		vAssert(m.DefaultRoute(h(100)) == nil, "default route registered")
+	}
+	nc := vNetConn("c")
+	c, err := newConn(context.Background(), 1, nc, vLogger(), m)
+	vAssume(err == nil)
+	vSummarise("encodeInteger")
+	for k := 0; k < 2; k++ {
+		n := fmt.Sprintf("req%d", k)
+		base := vAscii2(n + ".base")
+		scope := vI64(n + ".scope")
+		vAssume(scope >= 0 && scope <= 2)
+		op := refApp(ApplicationSearchRequest, refOctet(base), refEnum(scope), refEnum(0), refInt(0), refInt(0), refBool(false), refCtxPrim(7, "objectClass"), refSeq())
+		req, err := newRequest(k+1, c, &packet{Packet: vWire(refEnvelope(int64(k+1), op, nil))})
+		vAssume(err == nil && req != nil)
+		w, err := newResponseWriter(c.writer, &c.writerMu, c.logger, c.connID, k+1)
+		vAssume(err == nil)
+		before := len(calls)
+		m.serve(w, req)
+		expected := -1
+		for i, rt := range table {
+			if refMatch(rt, rkSearch, base, "", scope, "") {
+				expected = i
+				break
+			}
+		}
+		if expected < 0 && hasDefault {
+			expected = 100
+		}
+		if expected >= 0 {
+			vAssert(len(calls) == before+1, "exactly one handler runs per request")
+			if len(calls) == before+1 {
+				vAssert(calls[before] == expected, "each request goes to the first route that matches it (else the default route)")
+			}
+		} else {
+			vAssert(len(calls) == before, "no handler runs when nothing matches")
+		}
+	}
+	vReach("sequence served")
+}
